@@ -138,7 +138,11 @@ def pre_build(ctx):
         T.numeric(ctx, mt, 'find_omega_wedge', [(sc(g, t), t, w) for g, t, c, w in cs], rtol=1e-7, atol=1e-9)
         T.numeric(ctx, mt, 'find_omega', [(sc(g, t), t) for g, t, c, w in cs], rtol=1e-7, atol=1e-9)
         cells = [G.valid_cell(ctx.rng) for _ in range(n)]
-        T.numeric(ctx, mt, 'tth', [(c, G.hkl(ctx.rng, 3), 0.2) for c in cells], rtol=1e-8)
+        # tth is defined where lambda * sin(theta)/lambda <= 1 (beyond that numpy returns nan with a warning and the model's asin is undefined): stay inside
+        from .. import hklref as HR
+        tcases = [(c, G.hkl(ctx.rng, 3), 0.2) for c in cells]
+        tcases = [(c, h, wl) for c, h, wl in tcases if wl * 0.5 * math.sqrt(max(0.0, np.array(h).dot(HR.recip_metric(c)).dot(h))) < 0.999]
+        T.numeric(ctx, mt, 'tth', tcases, rtol=1e-8)
         T.numeric(ctx, mt, 'tth2', [(np.array([ctx.rng.gauss(0, 1) for _ in range(3)]), 0.2) for c in cells], rtol=1e-8)
 
 
